@@ -180,3 +180,37 @@ Theorem c09_translated_print_follows_choice :
   | None => None
   end.
 Proof. exact translated_print_follows_choice. Qed.
+
+(* ---- the third-party crates is_terminal_polyfill 1.48.1 and is-terminal 0.4.13, translated from the cargo registry
+   (tools/gen_fn_htmlescape.py, generator IsTerminalFn; Proofs/IsTerminalGen.v).  [pf_os] is the operating system as far
+   as is_terminal consults it (the descriptor a handle holds, libc::isatty of a descriptor), [pf_tty os w] = "isatty of
+   w's OWN descriptor answered non-zero". ---- *)
+From AV Require Import Generated.StreamFn Generated.AutoFn Generated.GlueFn Generated.IsTerminalFn Proofs.IsTerminalGen.
+
+(* every impl of the polyfill (File, Stdin, StdinLock, Stdout, StdoutLock, Stderr, StderrLock) asks the operating system
+   about the handle it is called on: the impl for Stdout asks stdout, the impl for Stderr asks stderr, ... *)
+Theorem c09_translated_polyfill_asks_self : forall f, In f g_pf_impls -> forall os w, f os w = pf_tty os w.
+Proof. exact translated_polyfill_asks_self. Qed.
+
+(* ... which is what `raw.is_terminal()` means in the stream area (tools/gen_fn_glue.py reads
+   `is_terminal_polyfill::IsTerminal::is_terminal(x)` as [raw_is_terminal cf x]) whenever [cf] describes that stream *)
+Theorem c09_translated_polyfill_is_raw_is_terminal :
+  forall f, In f g_pf_impls -> forall os cf w, pf_os_agrees os cf w -> f os w = raw_is_terminal cf w.
+Proof. exact translated_polyfill_is_raw_is_terminal. Qed.
+
+(* anstream's five descriptor-backed `impl IsTerminal` (Generated/GlueFn.v) answer what the polyfill's impl for the SAME
+   std type answers *)
+Theorem c09_translated_polyfill_meets_glue : forall os cf w,
+  pf_os_agrees os cf w ->
+  g_is_terminal_stdout cf w = g_pf_is_terminal_stdout os w /\
+  g_is_terminal_stdoutlock cf w = g_pf_is_terminal_stdoutlock os w /\
+  g_is_terminal_stderr cf w = g_pf_is_terminal_stderr os w /\
+  g_is_terminal_stderrlock cf w = g_pf_is_terminal_stderrlock os w /\
+  g_is_terminal_file cf w = g_pf_is_terminal_file os w.
+Proof. exact translated_glue_asks_polyfill. Qed.
+
+(* the translated decision fed with the polyfill's answer for a handle is the decision list at isatty of THAT handle *)
+Theorem c09_translated_polyfill_choice : forall f, In f g_pf_impls -> forall e user os w,
+  g_choice e user (f os w) =
+  match ch_to_choice user with Some g => Some (choice_model g e (pf_tty os w)) | None => None end.
+Proof. exact translated_polyfill_choice. Qed.
